@@ -224,9 +224,15 @@ pub fn pay_start(ctx: &mut Ctx, w: &World, a: &Agreed, ready: Ready, amount: i64
     let mut rng = ScriptedRng::new(ctx.prng.gen(), book.clone());
     if !ctx.forced_next.is_empty() { let f = std::mem::take(&mut ctx.forced_next); rng.force_scalars(&f); }
     let _ = verif_hooks::drain_challenges();
-    let (started, msg) = match ready.start(&mut rng, amount_of(amount), &a.context(), &w.customer) {
-        Ok(x) => x,
-        Err((r, e)) => return StartOutcome::Refused(r, e),
+    let context = a.context();
+    let started_r = std::panic::catch_unwind(std::panic::AssertUnwindSafe(|| ready.start(&mut rng, amount_of(amount), &context, &w.customer)));
+    let (started, msg) = match started_r {
+        Ok(Ok(x)) => x,
+        Ok(Err((r, e))) => return StartOutcome::Refused(r, e),
+        Err(_) => {
+            ctx.violation("the customer's Ready::start panics", json!({"class": "customer-start-panics", "amount": amount, "state": hex::encode(&rb), "scalar_draws": rng.scalars_in_log().iter().map(crate::dl::hex_s).collect::<Vec<_>>()}));
+            return StartOutcome::Broken;
+        }
     };
     let rec = verif_hooks::drain_challenges();
     if rec.len() != 1 {
